@@ -722,6 +722,10 @@ XProg(v) ==
     [] v = "embedded-fields-fieldsof" ->        \* wire.FieldsOf selecting embedded fields by the type's name
          mk(<<FieldsL("FO", "S3", <<"T2", "T3">>), XF("PS3", <<>>, "S3"), XF("Q", <<"T2", "*T3">>, "T1")>>, <<>>,
             <<XInj("Inject", <<>>, "T1", <<ItL(1), ItL(2), ItL(3)>>, 1)>>)
+    [] v = "same-text-values-two-packages" ->   \* wire.Value(Default) in two packages: the same expression text, two different variables
+         mk(<<[ValueL("VB", "U1") EXCEPT !.expr = "@var:Default"], [ValueL("VC", "U1") EXCEPT !.expr = "@var:Default"]>>,
+            <<SetD("SetB", "b", <<ItL(1)>>), SetD("SetC", "c", <<ItL(2)>>)>>,
+            <<XInj("InjectB", <<>>, "U1", <<ItS(1)>>, 1), XInj("InjectC", <<>>, "U1", <<ItS(2)>>, 1), XInj("InjectB2", <<>>, "U1", <<ItS(1)>>, 1)>>)
     [] v = "same-set-twice-direct" ->          \* one set listed twice in the same call
          mk(<<XF("P2", <<>>, "T2"), XF("P1", <<"T2">>, "T1")>>, <<SetD("SetA", "a", <<ItL(1)>>)>>,
             <<XInj("Inject", <<>>, "T1", <<ItS(1), ItL(2), ItS(1)>>, 1)>>)
@@ -739,7 +743,7 @@ XVariants == {"star-foreign-tag-missing", "star-foreign-tag-ok", "two-files-firs
               "foreign-struct-star-full-sig", "unnamed-params-same-type-name", "set-through-plain-alias-package",
               "generic-injector", "method-injector",
               "inline-set-partly-used", "inline-set-unused", "inline-set-in-named-set", "inline-set-conflict", "inline-set-twice",
-              "embedded-fields-struct", "embedded-fields-fieldsof"}
+              "embedded-fields-struct", "embedded-fields-fieldsof", "same-text-values-two-packages"}
 FamilyX(p, vs) == \E v \in vs : p = XProg(v)
 
 (* ======================================================================== *)
